@@ -13,6 +13,11 @@ class Undecided(Exception):
     pass
 
 
+ELEMENTWISE = {'numpy.digitize', 'numpy.abs', 'numpy.absolute', 'numpy.sqrt', 'numpy.power', 'numpy.square', 'numpy.exp',
+               'numpy.log', 'numpy.sign', 'numpy.floor', 'numpy.ceil', 'numpy.isnan', 'numpy.isfinite', 'numpy.nan_to_num',
+               'numpy.searchsorted_'}
+
+
 class Fault(Undecided):
     """numpy itself raises on this construction for arrays of the evaluated rank (a shape entry that does not exist, an
     impossible reshape, operands that do not broadcast)."""
@@ -72,6 +77,8 @@ class SmallEval:
                 except Undecided:
                     pass
                 if isinstance(base, SA):
+                    if not -len(base.shape) <= t[2][1] < len(base.shape):
+                        raise Fault('shape[%d] of a %d-dimensional array does not exist' % (t[2][1], len(base.shape)))
                     return base.shape[t[2][1]]
                 if -len(self.dims) <= t[2][1] < len(self.dims):
                     return self.dims[t[2][1]]
@@ -102,8 +109,13 @@ class SmallEval:
             import operator
             op = {'+': operator.add, '-': operator.sub, '*': operator.mul, '//': operator.floordiv,
                   '%': operator.mod}.get(t[1])
+            if op is None and t[1] in ('**', '/') and (isinstance(a, SA) or isinstance(b, SA)):
+                op = lambda x, y: 'o'       # noqa: E731  (value-opaque)
             if op is None:
                 raise Undecided('operator %s' % t[1])
+            if isinstance(a, SA) or isinstance(b, SA):
+                _op0 = op
+                op = lambda x, y: _op0(x, y) if isinstance(x, int) and isinstance(y, int) else 'o'      # noqa: E731
             if isinstance(a, int) and isinstance(b, int):
                 return op(a, b)
             if isinstance(a, SA) or isinstance(b, SA):
@@ -126,8 +138,15 @@ class SmallEval:
                     if len(dims) == 1 and dims[0][0] in ('tuple', 'list'):
                         dims = dims[0][1]
                     return self._reshape(b, [self.ev(d) for d in dims])
-                if t[1] in ('copy', 'astype'):
+                if t[1] in ('copy', 'astype', 'toarray', 'todense', 'tocsr', 'tocsc', 'tocoo'):
                     return b
+                if t[1] in ('sum', 'mean') and len(b.shape) == 2:
+                    ax = dict(t[4]).get('axis', t[3][0] if t[3] else ('c', None))
+                    if ax == ('c', 0):
+                        return SA((1, b.shape[1]), ['o'] * b.shape[1])        # matrix semantics: the axis is kept
+                    if ax == ('c', 1):
+                        return SA((b.shape[0], 1), ['o'] * b.shape[0])
+                    raise Undecided('reduction axis')
                 if t[1] == 'transpose' and not t[3]:
                     return self._transpose(b)
                 if t[1] == 'repeat' and t[3]:
@@ -136,6 +155,31 @@ class SmallEval:
         if k == 'call':
             name = t[1]
             kw = dict(t[3])
+            if name in ('scipy.sparse.coo_matrix', 'scipy.sparse.csr_matrix', 'scipy.sparse.csc_matrix') and t[2] \
+                    and t[2][0][0] == 'tuple' and len(t[2][0][1]) == 2 and t[2][0][1][1][0] == 'tuple':
+                data = self.ev(t[2][0][1][0])
+                rc = [self.ev(x) for x in t[2][0][1][1][1]]
+                shp = self.ev(kw['shape']) if 'shape' in kw else (self.ev(t[2][1]) if len(t[2]) > 1 else None)
+                vs = [data] + rc
+                if not all(isinstance(v, SA) for v in vs) or shp is None:
+                    raise Undecided('sparse constructor arguments')
+                if any(len(v.shape) != 1 for v in vs):
+                    raise Fault('sparse constructor: data and coordinates must be 1-D, got shapes %s' % [v.shape for v in vs])
+                if len({len(v.data) for v in vs}) != 1:
+                    raise Fault('sparse constructor: data, row and column vectors have lengths %s' % [len(v.data) for v in vs])
+                if not (isinstance(shp, tuple) and len(shp) == 2 and all(isinstance(x, int) for x in shp)):
+                    raise Undecided('sparse shape')
+                return SA(shp, ['o'] * (shp[0] * shp[1]))
+            if name in ELEMENTWISE and t[2]:
+                # value-opaque, shape-preserving (for shape reasoning on bound input arrays)
+                a = self.ev(t[2][0])
+                if isinstance(a, SA):
+                    return SA(a.shape, ['o'] * len(a.data))
+            if name in ('emd.support.ensure_2d', 'emd.support.ensure_vector', 'emd.support.ensure_1d_with_singleton'):
+                lst = t[2][0] if t[2] else kw.get('to_check')
+                if lst is not None and lst[0] in ('list', 'tuple'):
+                    vals = tuple(self.ev(x) for x in lst[1])
+                    return vals[0] if len(vals) == 1 else vals
             if name == 'numpy.arange' and len(t[2]) == 1:
                 n = self.ev(t[2][0])
                 if isinstance(n, int):
@@ -166,6 +210,10 @@ class SmallEval:
                     return self._repeat(a, self.ev(t[2][1]), kw.get('axis', t[2][2] if len(t[2]) > 2 else None))
             if name == 'numpy.broadcast_to' and len(t[2]) == 2:
                 a, sh = self.ev(t[2][0]), self.ev(t[2][1])
+                if isinstance(sh, SA) and len(sh.shape) != 1:
+                    raise Fault('np.broadcast_to: the shape argument is a %d-dimensional array (arguments swapped?)' % len(sh.shape))
+                if isinstance(a, tuple) and all(isinstance(x, int) for x in a):
+                    a = SA((len(a),), list(a))
                 if isinstance(a, SA) and isinstance(sh, tuple) and all(isinstance(x, int) for x in sh):
                     return _broadcast(a, sh)
             if name in ('numpy.reshape',) and len(t[2]) == 2:
@@ -218,7 +266,7 @@ class SmallEval:
                 known *= d
         if any(d < -1 for d in dims):
             raise Fault('reshape(%s): negative dimensions other than -1 are not allowed' % ', '.join(map(str, dims)))
-        if dims.count(-1) > 1 or known == 0 or n % known:
+        if dims.count(-1) > 1 or known == 0 or n % known or (dims.count(-1) == 0 and known != n):
             raise Fault('cannot reshape %d elements to %r' % (n, dims))
         sh = tuple(n // known if d == -1 else d for d in dims)
         return SA(sh, b.data)
@@ -245,7 +293,17 @@ class SmallEval:
         for it in items:
             if it[0] == 'slice':
                 if not all(is_c(x) and x[1] is None for x in it[1:4]):
-                    raise Undecided('partial slice')
+                    if pos >= len(b.shape):
+                        raise Fault('too many indices for a %d-dimensional array' % len(b.shape))
+                    bounds = [None if (is_c(x) and x[1] is None) else self.ev(x) for x in it[1:4]]
+                    if not all(x is None or isinstance(x, int) for x in bounds):
+                        raise Undecided('partial slice')
+                    sel.append(('range', list(range(b.shape[pos]))[slice(*bounds)]))
+                    layout.append(('src', pos))
+                    pos += 1
+                    continue
+                if pos >= len(b.shape):
+                    raise Fault('too many indices for a %d-dimensional array' % len(b.shape))
                 sel.append(('all',))
                 layout.append(('src', pos))
                 pos += 1
@@ -261,7 +319,12 @@ class SmallEval:
             layout.append(('src', pos))
             pos += 1
         for lay in layout:
-            out_shape.append(1 if lay[0] == 'new' else b.shape[lay[1]])
+            if lay[0] == 'new':
+                out_shape.append(1)
+            elif sel[lay[1]][0] == 'range':
+                out_shape.append(len(sel[lay[1]][1]))
+            else:
+                out_shape.append(b.shape[lay[1]])
 
         def get(oidx):
             src = [0] * len(b.shape)
@@ -270,7 +333,7 @@ class SmallEval:
                     src[ax] = s_[1]
             for o, lay in zip(oidx, layout):
                 if lay[0] == 'src':
-                    src[lay[1]] = o
+                    src[lay[1]] = sel[lay[1]][1][o] if sel[lay[1]][0] == 'range' else o
             return b.at(tuple(src))
         return SA.build(tuple(out_shape), get)
 
@@ -290,3 +353,45 @@ def flat_index_of_axis0(term, ndim):
         if flat != want:
             return False
     return True
+
+
+def flat_lengths(terms, ndim, bind_shapes):
+    """Lengths of the flattened terms for two small shapes.  bind_shapes: term -> tuple of axis positions, e.g.
+    S('infr') -> (0, 1) means an array of shape (d0, d1).  -> list (one per shape) of lists of lengths.
+    Raises Fault when numpy would raise on the construction, Undecided outside the model."""
+    out = []
+    for dims in ((3, 2, 2)[:ndim], (2, 3, 4)[:ndim]):
+        bind = {}
+        for t, axes in bind_shapes.items():
+            sh = tuple(a[1] if isinstance(a, tuple) else dims[a] for a in axes)      # ('lit', n) = a fixed length
+            n = 1
+            for d in sh:
+                n *= d
+            bind[t] = SA(sh, ['o'] * n)
+        ev = SmallEval(dims, bind)
+        row = []
+        for t in terms:
+            v = ev.ev(t)
+            if not isinstance(v, SA):
+                raise Undecided('not an array')
+            row.append((len(v.data), v.shape))
+        out.append(row)
+    return out
+
+
+def result_shapes(term, ndim, bind_shapes):
+    """Shape of `term` for two small input shapes (inputs bound as value-opaque arrays).  Raises Fault / Undecided."""
+    out = []
+    for dims in ((3, 2, 2)[:ndim], (2, 3, 4)[:ndim]):
+        bind = {}
+        for t, axes in bind_shapes.items():
+            sh = tuple(a[1] if isinstance(a, tuple) else dims[a] for a in axes)
+            n = 1
+            for d in sh:
+                n *= d
+            bind[t] = SA(sh, ['o'] * n)
+        v = SmallEval(dims, bind).ev(term)
+        if not isinstance(v, SA):
+            raise Undecided('not an array')
+        out.append((dims, v.shape))
+    return out
